@@ -122,6 +122,8 @@ pub(crate) fn register<K>(name: K, actor: ActorCell) -> Result<(), ActorRegistry
 where
     K: Into<String>,
 {
+    #[cfg(feature = "verif")]
+    crate::verif::point(crate::verif::pt::REGISTRY_REGISTER, crate::verif::id_u64(&actor.get_id()), 0);
     match get_actor_registry().entry(name.into()) {
         Occupied(occupied) => Err(ActorRegistryErr::AlreadyRegistered(occupied.key().clone())),
         Vacant(vacancy) => {
@@ -136,6 +138,8 @@ pub(crate) fn unregister<K>(name: K)
 where
     K: AsRef<str>,
 {
+    #[cfg(feature = "verif")]
+    crate::verif::point(crate::verif::pt::REGISTRY_UNREGISTER, 0, 0);
     if let Some(reg) = ACTOR_REGISTRY.get() {
         let _ = reg.remove(name.as_ref());
     }
